@@ -227,6 +227,16 @@ class MayRaise:
             if not changed:
                 break
 
+    def _unbound(self, f: FuncInfo) -> set:
+        """ids of the Name nodes the term evaluator found unbound (a local of the function with no binding on the path)"""
+        cache = self.__dict__.setdefault("_unbound_cache", {})
+        if f.qualname not in cache:
+            try:
+                cache[f.qualname] = {id(n) for n in self.eng.symeval(f.qualname).undef_reads}
+            except Exception:
+                cache[f.qualname] = set()
+        return cache[f.qualname]
+
     def _function(self, f: FuncInfo) -> set[Raise]:
         self._f = f
         self._selfname = f.params[0] if f.cls and not f.is_static and f.params else None
@@ -437,6 +447,8 @@ class MayRaise:
         if e is None:
             return out
         for n in self._walk_expr(e):
+            if isinstance(n, ast.Name) and isinstance(n.ctx, ast.Load) and id(n) in self._unbound(self._f):
+                out.add(self._mk("UnboundLocalError", n, f"local `{n.id}` is read before any assignment on this path"))
             if isinstance(n, ast.Subscript) and isinstance(n.ctx, ast.Load) and not isinstance(n.slice, ast.Slice):
                 if id(n) in self.discharged:
                     continue
